@@ -3,6 +3,7 @@ package mbapp
 import (
 	"context"
 	"fmt"
+	"math"
 	"runtime"
 	"sync/atomic"
 	"time"
@@ -20,6 +21,9 @@ var disableFastPath bool
 const (
 	maxTimeout = (1 << 28) * time.Millisecond
 	maxAskWait = 30 * time.Second
+	// maxParts is the largest number of parts a message can be split into:
+	// the part index and the part count are 16 bit values in the header.
+	maxParts = math.MaxUint16
 )
 
 type Swarm[A p2p.Addr, Pub any] struct {
@@ -63,7 +67,7 @@ func New[A p2p.Addr, Pub any](x p2p.SecureSwarm[A, Pub], mtu int, opts ...Option
 func (s *Swarm[A, Pub]) Ask(ctx context.Context, resp []byte, dst A, req p2p.IOVec) (int, error) {
 	ctx, cf := context.WithTimeout(ctx, maxAskWait)
 	defer cf()
-	if p2p.VecSize(req) > s.mtu {
+	if p2p.VecSize(req) > s.MTU() {
 		return 0, p2p.ErrMTUExceeded
 	}
 	// create ask in map
@@ -101,7 +105,7 @@ func (s *Swarm[A, Pub]) Ask(ctx context.Context, resp []byte, dst A, req p2p.IOV
 }
 
 func (s *Swarm[A, Pub]) Tell(ctx context.Context, dst A, msg p2p.IOVec) error {
-	if p2p.VecSize(msg) > s.mtu {
+	if p2p.VecSize(msg) > s.MTU() {
 		return p2p.ErrMTUExceeded
 	}
 	return s.send(ctx, dst, sendParams{
@@ -141,7 +145,12 @@ func (s *Swarm[A, Pub]) LookupPublicKey(ctx context.Context, x A) (Pub, error) {
 	return s.inner.LookupPublicKey(ctx, x)
 }
 
+// MTU returns the configured MTU, or the largest message which can be sent
+// in maxParts parts over the inner swarm if that is smaller.
 func (s *Swarm[A, Pub]) MTU() int {
+	if m := (s.inner.MTU() - HeaderSize) * maxParts; m < s.mtu {
+		return m
+	}
 	return s.mtu
 }
 
